@@ -200,6 +200,12 @@ def run_cfg(ctx, cfg):
         _m.callers_exact(ctx, "poll-per-round", crate, DTK + "next_unpropagated", {SOLVER + "propagate"}, tag, 1)
         _m.callers_exact(ctx, "poll-per-round", crate, "resolvo::solver::watch_map::WatchMap::cursor", {SOLVER + "propagate"}, tag, 1)
 
+    # requests only run inside encode's drain loop, where the `?` on a result stops everything: a queue function that polls the
+    # future it creates (now_or_never fast path) starts the rest of its batch after one of them already returned the cancellation
+    # (seed C12-18)
+    import c11
+    ctx.guard("short-circuit" + tag, c11.queue_before_suspend, ctx, crate, tag)
+
     # ---- rule 3: payload provenance ----------------------------------------------------
     n_payload = 0
     for b in crate.bodies:
